@@ -77,6 +77,29 @@ impl DependencyResolver {
         vec_ref.len() == 1
     }
 
+    /// Removes the given message event from its group of identical messages.
+    /// Returns the id of the next message in the group if it became the oldest one (i.e. got unblocked).
+    pub fn remove_message_by_id(
+        &mut self,
+        msg: Message,
+        src: String,
+        dst: String,
+        event_id: McEventId,
+    ) -> Option<McEventId> {
+        let key = (msg, src, dst);
+        let ids = self.messages.get_mut(&key).unwrap();
+        let was_front = ids.front() == Some(&event_id);
+        ids.retain(|id| *id != event_id);
+        if ids.is_empty() {
+            self.messages.remove(&key);
+            None
+        } else if was_front {
+            Some(ids[0])
+        } else {
+            None
+        }
+    }
+
     pub fn remove_message(&mut self, msg: Message, src: String, dst: String) -> Option<McEventId> {
         let ids = self.messages.get_mut(&(msg.clone(), src.clone(), dst.clone())).unwrap();
         ids.pop_front();
